@@ -23,7 +23,7 @@ func TestMain(m *testing.M) {
 		"duplicate/misordered parameters of def and lambda, duplicate/misordered arguments, 256 vs 255 positional/named arguments, augmented assignment to tuple/list, assignment to a non-lvalue, load of a private name) "+
 		"at a random admissible slot (top level, function body, loop body, branch, nested def, lambda default, comprehension clause); the result is executed under all 2^6 FileOptions vectors. "+
 		"An independent rule table says for each vector whether the plant is a violation: if so the program must be rejected with a syntax.Error/resolve.ErrorList positioned on the plant's line (column inside the plant) and no code may have run; "+
-		"otherwise it must not be rejected statically. (recursion) call cycles over <= 4 functions through plain calls, lambdas, two closures of one def, and sorted/min/max callbacks: "+
+		"otherwise it must not be rejected statically. (recursion) call cycles over <= 4 functions through plain calls, lambdas, two closures of one def, sorted/min/max callbacks, and the same definition in a second Init of the compiled program (reached through a host built-in): "+
 		"with recursion off the re-entering call fails and the function is not entered again; with recursion on the cycle proceeds. "+
 		"Non-trivial = plant at nesting depth >= 2 or in a lambda default / comprehension clause; recursion cycle of length >= 2 through a non-plain edge; distinct by (program, plant, slot).",
 		"the rule table (plant -> violating option vectors) is written from doc/spec.md and the FileOptions documentation",
@@ -645,6 +645,10 @@ func edgeExpr(kind, callee string) string {
 		return fmt.Sprintf("max([d - 1], key = %s)", callee)
 	case "comp":
 		return fmt.Sprintf("[%s(v) for v in [d - 1]][0]", callee)
+	case "peer":
+		// the successor as defined by the *other* instance of this program (the host initialises the compiled
+		// program twice; the two instances share their code)
+		return fmt.Sprintf("peer(%q, d - 1)", callee)
 	}
 	return fmt.Sprintf("%s(d - 1)", callee)
 }
@@ -666,7 +670,7 @@ func recProgram(c RecCase) (string, []string, bool) {
 			fmt.Fprintf(&sb, "def f%d(d):\n    t(\"enter\", %d)\n    if d <= 0:\n        return 0\n    return %s\n", i, i, edgeExpr(c.Edges[i], callee))
 		}
 	}
-	if !c.ViaCall {
+	if !c.ViaCall && !hasPeer(c) {
 		fmt.Fprintf(&sb, "R = f0(%d)\n", c.Depth)
 	}
 	// model with recursion off: follow the path until active code would be re-entered
@@ -704,6 +708,15 @@ func recProgram(c RecCase) (string, []string, bool) {
 	return sb.String(), off, failed
 }
 
+func hasPeer(c RecCase) bool {
+	for _, e := range c.Edges {
+		if e == "peer" {
+			return true
+		}
+	}
+	return false
+}
+
 func checkRecursion(c RecCase) error {
 	if c.N < 1 || c.N > 4 || len(c.Edges) != c.N || c.Back < 0 || c.Back >= c.N {
 		return fmt.Errorf("malformed case")
@@ -713,6 +726,30 @@ func checkRecursion(c RecCase) error {
 		tr := &host.Trace{}
 		pre, th := host.Env(tr, "c09rec")
 		th.SetMaxExecutionSteps(1000000)
+		if hasPeer(c) {
+			// One compiled program, initialised twice; f0 of the first instance is called from Go.
+			var inst [2]starlark.StringDict
+			cur := 0
+			pre["peer"] = starlark.NewBuiltin("peer", func(th *starlark.Thread, b *starlark.Builtin, args starlark.Tuple, kwargs []starlark.Tuple) (starlark.Value, error) {
+				cur ^= 1
+				defer func() { cur ^= 1 }()
+				name, _ := starlark.AsString(args[0])
+				return starlark.Call(th, inst[cur][name], args[1:], nil)
+			})
+			_, prog, err := starlark.SourceProgramOptions(&syntax.FileOptions{Recursion: rec}, "rec.star", src, pre.Has)
+			if err != nil {
+				return nil, err
+			}
+			for i := range inst {
+				if inst[i], err = prog.Init(th, pre); err != nil {
+					return tr.Events, err
+				}
+			}
+			th2 := &starlark.Thread{Name: "c09call", Print: th.Print}
+			th2.SetMaxExecutionSteps(1000000)
+			_, err = starlark.Call(th2, inst[0]["f0"], starlark.Tuple{starlark.MakeInt(c.Depth)}, nil)
+			return tr.Events, err
+		}
 		g, err := starlark.ExecFileOptions(&syntax.FileOptions{Recursion: rec}, th, "rec.star", src, pre)
 		if err == nil && c.ViaCall {
 			// the usual embedding pattern: load a module, then call one of its functions from Go
@@ -781,7 +818,7 @@ func checkRecursion(c RecCase) error {
 
 var subRec = vk.Register("recursion", checkRecursion)
 
-var edgeKinds = []string{"plain", "lambda", "twin", "sorted", "min", "max", "comp"}
+var edgeKinds = []string{"plain", "lambda", "twin", "sorted", "min", "max", "comp", "peer"}
 
 // All call graphs of the stated shape: n <= 4 functions, every back edge target, every edge-kind vector (thorough) or
 // n <= 3 (quick), depth 2n+1.
